@@ -14,7 +14,7 @@ pub fn base_spec(workers: u32, rule: &str, assumptions: &[&str], timeout_s: u64)
         property: String::new(), tier: Tier::Quick, seed: 1, workers,
         rule: rule.to_string(), level: "exploration",
         assumptions: assumptions.iter().map(|s| s.to_string()).collect(), timeout_s,
-        case_limit_s: 120, hang_is_violation: false,
+        case_limit_s: 120, hang_is_violation: false, foreign_workers: None, native_workers: None,
     }
 }
 
@@ -25,6 +25,7 @@ pub mod c03;
 pub mod c04;
 pub mod c05;
 pub mod c06;
+pub mod c07;
 pub mod c09;
 pub mod c10;
 pub mod c11;
@@ -36,7 +37,7 @@ pub mod c18;
 pub mod c19;
 pub mod c20;
 
-pub const ALL: &[&str] = &["C01", "C02", "C03", "C04", "C05", "C06", "C09", "C10", "C11", "C14", "C15", "C16", "C17", "C18", "C19", "C20"];
+pub const ALL: &[&str] = &["C01", "C02", "C03", "C04", "C05", "C06", "C07", "C09", "C10", "C11", "C14", "C15", "C16", "C17", "C18", "C19", "C20"];
 
 pub fn lookup(id: &str) -> Option<Prop> {
     match id {
@@ -46,6 +47,7 @@ pub fn lookup(id: &str) -> Option<Prop> {
         "C04" => Some(Prop { id: "C04", spec: c04::spec, run: c04::run, replay: c04::replay }),
         "C05" => Some(Prop { id: "C05", spec: c05::spec, run: c05::run, replay: c05::replay }),
         "C06" => Some(Prop { id: "C06", spec: c06::spec, run: c06::run, replay: c06::replay }),
+        "C07" => Some(Prop { id: "C07", spec: c07::spec, run: c07::run, replay: c07::replay }),
         "C09" => Some(Prop { id: "C09", spec: c09::spec, run: c09::run, replay: c09::replay }),
         "C10" => Some(Prop { id: "C10", spec: c10::spec, run: c10::run, replay: c10::replay }),
         "C11" => Some(Prop { id: "C11", spec: c11::spec, run: c11::run, replay: c11::replay }),
